@@ -1,5 +1,8 @@
 /- C04: counterexamples to the original statement of `miter_ok` (every hypothesis of the original statement holds,
-   the construction raises ValueError).  They justify the added hypotheses `hsp`, `hep`, `hept`. -/
+   the construction raises ValueError).  They justify the added hypothesis `hept`.
+   (Before the K51 repair an EMPTY startpoint/endpoint list selected the defaults, and two further hypotheses
+   `sp ≠ []`, `ep ≠ []` were needed; with `if startpoints is None` an empty list is an explicit choice and the former
+   counterexamples 1 and 2' now build — recorded below as positive facts.) -/
 import CG.Props.C04
 namespace CG.C04Cex
 open CG.C04
@@ -8,7 +11,8 @@ theorem lit_ne_pref (s p n : String) (h : ∀ l, s.toList ≠ p.toList ++ l) : s
   intro e
   exact h n.toList (by rw [e, String.toList_append])
 
-/-! ### 1. no explicit startpoints (`hsp`): the shared input is called `sat` -/
+/-! ### 1. an explicitly empty startpoint list, the shared input is called `sat`: no longer a counterexample (nothing is
+    tied, so no node `sat` of type input is created) -/
 
 def cx1 : Circuit :=
   { nodes := [("sat", { ty := some "input", out := some false }), ("o", { ty := some "buf", out := some true })],
@@ -25,24 +29,14 @@ theorem cx1_clash : ∀ s ∈ ([] : List Name),
     s ≠ "sat" ∧ (∀ n, s ≠ "c0_" ++ n) ∧ (∀ n, s ≠ "c1_" ++ n) ∧ (∀ n, s ≠ "dif_" ++ n) := by
   intro s hs; cases hs
 
-theorem cx1_fails : (Tx.miter cx1 (some cx1) (some []) (some ["o"]) id).toOption = none := by decide
+/-- with the repaired library the empty startpoint list is honoured and the miter is built -/
+theorem cx1_builds : (Tx.miter cx1 (some cx1) (some []) (some ["o"]) id).toOption.isSome = true := by decide
 
-/-- the original statement of `miter_ok` is false -/
-theorem original_miter_ok_false :
-    ¬ (∀ (c0 c1 : Circuit) (sp ep : List Name) (ord : Ord), OrdOK ord → Good c0 → Good c1 → c1.nodes ≠ [] →
-        Shared c0 c1 sp ep →
-        (∀ p ∈ c0.nodes ++ c1.nodes, p.1 ≠ "" ∧ Circuit.isDigit0 p.1 = false) →
-        (∀ s ∈ sp, s ≠ "sat" ∧ (∀ n, s ≠ "c0_" ++ n) ∧ (∀ n, s ≠ "c1_" ++ n) ∧ (∀ n, s ≠ "dif_" ++ n)) →
-        ∃ m, Tx.miter c0 (some c1) (some sp) (some ep) ord = .ok m) := by
-  intro h
-  obtain ⟨m, hm⟩ := h cx1 cx1 [] ["o"] id (fun l => List.Perm.refl l) cx1_good cx1_good (by decide) cx1_shared
-    cx1_names cx1_clash
-  have := cx1_fails
-  rw [hm] at this
-  cases this
+/-- the default startpoints (`None`) still collide with `sat` — outside the scope of `miter_ok` (explicit lists) -/
+theorem cx1_default_fails : (Tx.miter cx1 (some cx1) none (some ["o"]) id).toOption = none := by decide
 
-/-! ### 2. a compared endpoint is a `bb_input` pin node (`hept`); with no explicit endpoints (`hep`) the same node is
-    picked up by the default `c0.endpoints() & c1.endpoints()` -/
+/-! ### 2. a compared endpoint is a `bb_input` pin node (`hept`); with the default endpoints (`None`) the same node is
+    picked up by `c0.endpoints() & c1.endpoints()`; an explicitly empty endpoint list builds -/
 
 def cx2 : Circuit :=
   { nodes := [("a", { ty := some "input", out := some false }), ("p", { ty := some "bb_input", out := some false })],
@@ -69,8 +63,26 @@ theorem cx2_clash : ∀ s ∈ ["a"],
 /-- explicit startpoints and endpoints, all original hypotheses hold, but the endpoint is a `bb_input` node -/
 theorem cx2_fails : (Tx.miter cx2 (some cx2) (some ["a"]) (some ["p"]) id).toOption = none := by decide
 
-/-- explicit startpoints, no explicit endpoints: the default endpoints contain the `bb_input` node -/
-theorem cx2_fails' : (Tx.miter cx2 (some cx2) (some ["a"]) (some []) id).toOption = none := by decide
+/-- explicit startpoints, default endpoints: the default endpoints contain the `bb_input` node -/
+theorem cx2_fails' : (Tx.miter cx2 (some cx2) (some ["a"]) none id).toOption = none := by decide
+
+/-- explicit startpoints, explicitly no endpoints: built, `sat` is the constant 0 -/
+theorem cx2_builds' : (Tx.miter cx2 (some cx2) (some ["a"]) (some []) id).toOption.map (fun m => m.ty? "sat") =
+    some (some "0") := by decide
+
+/-- the original statement of `miter_ok` (without `hept`) is false -/
+theorem original_miter_ok_false :
+    ¬ (∀ (c0 c1 : Circuit) (sp ep : List Name) (ord : Ord), OrdOK ord → Good c0 → Good c1 → c1.nodes ≠ [] →
+        Shared c0 c1 sp ep →
+        (∀ p ∈ c0.nodes ++ c1.nodes, p.1 ≠ "" ∧ Circuit.isDigit0 p.1 = false) →
+        (∀ s ∈ sp, s ≠ "sat" ∧ (∀ n, s ≠ "c0_" ++ n) ∧ (∀ n, s ≠ "c1_" ++ n) ∧ (∀ n, s ≠ "dif_" ++ n)) →
+        ∃ m, Tx.miter c0 (some c1) (some sp) (some ep) ord = .ok m) := by
+  intro h
+  obtain ⟨m, hm⟩ := h cx2 cx2 ["a"] ["p"] id (fun l => List.Perm.refl l) cx2_good cx2_good (by decide) cx2_shared
+    cx2_names cx2_clash
+  have := cx2_fails
+  rw [hm] at this
+  cases this
 
 /-! ### 3. a compared endpoint is a `bb_output` node (`hept`) -/
 
